@@ -62,3 +62,18 @@ Proof.
   destruct R as (_ & _ & _ & _ & _ & R6 & _ & R8 & R9 & R10 & _).
   exact (conj (ex_all_wf be Hb) (conj R6 (conj R8 (conj R9 R10)))).
 Qed.
+
+(* ---- tie (a): the decision points the model uses at this place ARE the current C text (Core/CoreLeafLink.v;
+   Gen/LeafCore*.v is re-translated from /repo/src by gen/c2gallina.py on every run of this check) ---- *)
+From Ivv Require Import Base.CSem Gen.LeafCoreFd Gen.LeafCoreTask Gen.LeafCoreMain Gen.LeafCoreEpoll Gen.LeafCorePoll Core.CoreLeafLink.
+
+(* the exit test of iv_main (`st->quit || !st->numobjs`) and the run-timers test are the translated C *)
+Theorem C07_exit_test_is_the_code :
+  forall (q : bool) n, core_main_exit_test (b2z q) n = Some (q || (n =? 0)).
+Proof. exact leaf_main_exit_test. Qed.
+Print Assumptions C07_exit_test_is_the_code.
+
+Theorem C07_timeout_check_is_the_code :
+  forall s abs, int_ok (last_abs_count s + 1) -> timeout_check_code s abs = Some (timeout_check s abs).
+Proof. exact timeout_check_is_the_code. Qed.
+Print Assumptions C07_timeout_check_is_the_code.
